@@ -204,14 +204,14 @@ def r3_r5_resolvers(ctx, sym, ids=('R3', 'R5'), writers=True, model=None):
                                   'correct=%r score=%r' % (want['correct'], want['score'])))
         # resolving the same report twice, with a feedback muted / unmuted in between, gives the result for the state
         # at the second call
-        for first_muted in (True, False):
+        for first_muted, plain in itertools.product((True, False), (False, True)):
             cfgs2 = [dict(category='runtime', label='A', triggered=True, correct=False, muted=first_muted),
                      dict(category='runtime', label='B', triggered=True, correct=True)]
 
             def flip(fbs, report):
                 fbs[0].attrs['muted'] = not first_muted
             n += 1
-            got = model.run_driver(fn, cfgs2, [1, 2], with_ignored, then=flip)
+            got = model.run_driver(fn, cfgs2, [1, 2], with_ignored, then=flip, plain=plain)
             want = model.oracle([dict(cfgs2[0], muted=not first_muted), cfgs2[1]])
             if isinstance(got, tuple) or got.get('label') != want['label'] or got.get('correct') != want['correct']:
                 merge_bad.append((cfgs2, [1, 2], ('second resolve after %s the first feedback: ' % (
